@@ -31,7 +31,10 @@
 (*  UnknownAutoAnswer  "active" for a module the device does not have is    *)
 (*                     answered active=false by the library itself;         *)
 (*  InactiveFails      any other message for an inactive module is never    *)
-(*                     delivered; failing TO2 is allowed.                   *)
+(*                     delivered; dropping it or failing TO2 is allowed.    *)
+(*  BlockedWhileMore   what the owner sends with IsMoreServiceInfo is       *)
+(*                     dispatched to device modules only after the 68/69    *)
+(*                     pair without more-flags that ends the round.         *)
 (***************************************************************************)
 EXTENDS Integers, Sequences, FiniteSets, TLC
 
@@ -416,4 +419,17 @@ TypeOK ==
     /\ turn \in {"dev", "own"}
     /\ oidx \in 0..NOwner
 
+-----------------------------------------------------------------------------
+(* The action names of DESIGN.md section 2 (one event each; OwnerProduce is a call that writes chunks,   *)
+(* possibly reports completion and returns its explicit block flag).                                    *)
+Dev68(more, kvs)                          == Ev68(more, kvs)
+OwnerHandle(m, g, n, off, ok, dig, val)   == EvOwnerGot(m, g, n, off, ok, dig, val)
+OwnerProduceWrite(m, g, n, off, dig)      == EvOwnerWrote(m, g, n, off, dig)
+OwnerProduceComplete(m)                   == EvModuleDone(m)
+OwnerProduceReturn(m, block, done)        == EvProduce(m, block, done)
+Owner69(more, done, kvs)                  == Ev69(more, done, kvs)
+Dev69Dispatch(m, g, n, off, ok, dig)      == EvDevGot(m, g, n, off, ok, dig)
+Activate(m, v)                            == EvActivate(m, v)
+Yield(m)                                  == EvYieldCall(m)
+Done                                      == Ev70
 =============================================================================
